@@ -16,7 +16,7 @@ from sim.ref import cli_model as cm
 LENGTHS = [12, 15, 18, 21, 24]
 ENT = {12: 128, 15: 160, 18: 192, 21: 224, 24: 256}
 APIS = ["new_wallet", "from_entropy_bits", "mnemonic_bits", "paper_new", "cli_new"]
-FAULTS = ["EIO", "NOSYS", "EAGAIN_ONCE"]
+FAULTS = ["EIO", "NOSYS", "EAGAIN_ONCE", "EPERM", "EACCES", "ENOENT", "ENOSYS", "EINTR_ONCE", "EMFILE"]
 
 
 # =========================================================================== generation
@@ -157,7 +157,7 @@ def _run_child(plan):
              "prng_resets": 0, "clock_events": 0, "bits_checked": 0, "identity_mapping_held": 0,
              "identity_mapping_checked": 0}
     seen = {}            # mnemonic -> step index (no two fresh wallets coincide)
-    prev_windows = [None]
+    prev_windows = []
     snapshot = None
     pending_liveness = False
 
@@ -209,13 +209,15 @@ def _run_child(plan):
             nb = len(ent) * 8
             v = int.from_bytes(ent, "big")
             wins = set((v >> k) & ((1 << 48) - 1) for k in range(0, nb - 47))
-            if prev_windows[0] is not None and len(wins) > 40 and len(prev_windows[0]) > 40:
-                common = wins & prev_windows[0]
+            for back, pw in enumerate(reversed(prev_windows[-4:])):
+                common = wins & pw if (len(wins) > 40 and len(pw) > 40) else None
                 if common:
                     add("C08/consecutive-wallets-share-entropy", {"clause": "entropy-reused-across-wallets", "api": f["api"]},
-                        {"step": si, "fresh": f, "shared_48_bit_windows": len(common),
-                         "note": "a run of >= 48 entropy bits of the previous fresh wallet re-appears in this one"})
-            prev_windows[0] = wins
+                        {"step": si, "fresh": f, "shared_48_bit_windows": len(common), "wallets_back": back + 1,
+                         "note": "a run of >= 48 entropy bits of an earlier fresh wallet re-appears in this one"})
+                    break
+            prev_windows.append(wins)
+            del prev_windows[:-4]
         if check_dup:
             if mn in seen:
                 add("C08/fresh-wallets-coincide", {"clause": "no-two-coincide", "api": f["api"]},
@@ -481,7 +483,7 @@ class EntropySim(Simulator):
         return ("one run = a history of 4-16+ steps in one process: fresh-wallet requests through five entry points "
                 "(mnemonic_from_entropy_bits, BaseWallet.new_wallet, from_entropy_bits, PaperWallet.new_wallet, CLI `new`) "
                 "interleaved with environment events (process-wide PRNG seed/setstate, clock freeze/jump, device epoch "
-                "change, device fault EIO/NOSYS/EAGAIN-once on and off, fork twins with different vs. identical device "
+                "change, device faults (EIO, NotImplementedError, EAGAIN/EINTR once, EPERM, EACCES, ENOENT, ENOSYS, EMFILE) on and off, fork twins with different vs. identical device "
                 "streams, PRNG-reset-and-repeat) plus statistical batches of 64 fresh mnemonics per length. Non-trivial = "
                 ">=2 successful fresh wallets and at least one fault, twin or PRNG reset; distinct by digest of all "
                 "mnemonics/events (device stream is keyed by the run seed).")
